@@ -408,6 +408,44 @@ def reachable_int_literals(fi: FuncInfo, is_subject, depth: int = 2, _seen=None)
     return {k for k in out if -10 <= k <= 100000}
 
 
+def closure_int_literals(prj, fi: FuncInfo, depth: int = 3, _seen=None) -> set[int]:
+    """every integer literal a decision in fi can depend on: literals of fi's view, of the module-level constants it
+    names (also through other constants), and of the project functions it calls (bounded depth)"""
+    _seen = _seen if _seen is not None else set()
+    if fi.qual in _seen or depth < 0:
+        return set()
+    _seen.add(fi.qual)
+    out = set()
+
+    def add_expr(e, mod, d=0):
+        for c in ast.walk(e):
+            k = const_int(c)
+            if k is not None:
+                out.add(k)
+            if isinstance(c, ast.Name) and d < 3 and c.id in mod.assigns:
+                add_expr(mod.assigns[c.id], mod, d + 1)
+    for n in fi.walk():
+        k = const_int(n)
+        if k is not None:
+            out.add(k)
+        if isinstance(n, ast.Name) and n.id in fi.module.assigns and n.id not in fi.params():
+            add_expr(fi.module.assigns[n.id], fi.module)
+        if isinstance(n, ast.Name) and n.id in fi.module.imports:
+            tgt = prj._resolve_import(fi.module.imports[n.id])
+            if isinstance(tgt, tuple) and tgt and tgt[0] == "modattr":
+                add_expr(tgt[1].assigns[tgt[2]], tgt[1])
+        if isinstance(n, ast.Attribute) and fi.cls is not None and isinstance(n.value, ast.Name) and n.value.id in ("self", "cls", fi.cls.name):
+            for c in fi.cls.mro():
+                if n.attr in c.class_attrs and c.class_attrs[n.attr] is not None:
+                    add_expr(c.class_attrs[n.attr], c.module)
+        if isinstance(n, ast.Call):
+            tg, kind = prj.resolve_call(fi, n)
+            if kind in ("direct", "self", "ctor"):
+                for t in tg:
+                    out |= closure_int_literals(prj, prj.func(t.qual), depth - 1, _seen)
+    return {k for k in out if -10 <= k <= 100000}
+
+
 def sample_points(lits: list[int]) -> list[int]:
     pts = set()
     base = sorted(set(lits) | set(SPEC_CUTS))
